@@ -122,6 +122,11 @@ func c12Forms(sc *c07Schema) []c12Form {
 		{"builtin-encode-null", "ENCODE(" + r("nokey") + ", 'hex')", "any"},
 		{"builtin-hash-null", "HASH(" + r("nokey") + ", 'sha1')", "any"},
 		{"builtin-first-null", "FIRST(" + r("nokey") + ")", "any"},
+		{"builtin-hash-object", "HASH(FIRST(" + r(items) + "), 'sha256')", "any"},
+		{"builtin-encode-object", "ENCODE(ARRAY(LAST(" + r(items) + "), " + r(k) + "), 'hex')", "any"},
+		{"builtin-hash-array", "HASH(" + r(items) + ", 'md5')", "any"},
+		{"builtin-concat-object", "CONCAT(FIRST(" + r(items) + "), '|', " + r(items) + ")", "any"},
+		{"builtin-changetype-object", "CHANGETYPE(FIRST(" + r(items) + "), 'string')", "any"},
 		{"builtin-last", "LAST(" + r(items) + ")", "any"},
 		{"builtin-elementat", "ELEMENTAT(" + r(items) + ", 0)", "any"},
 		{"builtin-unwind", "UNWIND(ARRAY(" + r(items) + ", ARRAY(" + r(k) + ")))", "any"},
@@ -364,7 +369,7 @@ func init() {
 	Register(&Prop{
 		ID:    "C12",
 		Title: "Results are plain self-contained data and evaluation is deterministic",
-		Rule: "rapid draws a document and (2/3) one of 55 expression forms (columns, literals of every kind, arithmetic, unary, comparisons, IN, BETWEEN, LIKE, " +
+		Rule: "rapid draws a document and (2/3) one of 60 expression forms (columns, literals of every kind, arithmetic, unary, comparisons, IN, BETWEEN, LIKE, " +
 			"IS, NOT, AND/OR, CASE with and without ELSE, built-in and user function calls, nested calls, subqueries, ASYNC / ONCE / SPIN / SPINASYNC " +
 			"calls, SETVAR/GETVAR, FUSE, CONSTANT, 14 built-ins with NULL / missing arguments) placed in one of 20 positions (select item aliased/unaliased, function argument, array element, " +
 			"CASE branch/else/condition, IN list, WHERE, subquery select list, grouped select list, HAVING, joined select list, CTE and derived-table " +
